@@ -93,6 +93,8 @@ def _keyword(rng, limit, taken, near=None):
 
 
 PROFILES = ["one", "pow2", "pow2_single", "boundary", "many_small", "mixed", "shared_ids", "big_list", "long_keywords"]
+# large databases (array indexes, counters and pointer widths beyond one byte); run for one configuration per scheme
+BIG_PROFILES = ["many_keywords", "long_list"]
 
 
 def capacity(name, cfg):
@@ -131,6 +133,10 @@ def gen_db(name, cfg, rng, profile, scale=1):
         lens = [rng.randint(9, 30 * scale)] + [rng.randint(1, 3) for _ in range(rng.randint(0, 3))]
     elif profile == "long_keywords":
         lens = [rng.randint(1, 5) for _ in range(rng.randint(1, 4))]
+    elif profile == "many_keywords":
+        lens = [rng.randint(1, 4) for _ in range(150)]
+    elif profile == "long_list":
+        lens = [rng.randint(290, 330)] + [rng.randint(1, 3) for _ in range(3)]
     else:
         lens = [rng.randint(1, 12 * scale) for _ in range(rng.randint(1, 6))]
     lens = [min(l, maxL, 255 ** min(ids, 2)) for l in lens][:maxK]
